@@ -150,6 +150,21 @@ def shard(args):
                                  long_tokens=r.random() < 0.3,
                                  toplevel_atoms=r.random() < 0.5)
             text = gen_lex.serialise(r, items, gen_lex.SEPS_STD)
+            if i % 4 == 3 and len(text) > 2:
+                # "every parsed input": also what the parser makes of a file
+                # that was cut off or lost a character (an unterminated
+                # literal, an unclosed or stray parenthesis)
+                k = r.randrange(1, len(text))
+                if r.random() < 0.6:
+                    text = text[:k]
+                    res.count('inputs_cut_off')
+                else:
+                    text = text[:k] + text[k + 1:]
+                    res.count('inputs_with_a_character_removed')
+                try:
+                    refreader.read(text)
+                except refreader.LexError:
+                    res.count('inputs_ill_formed')
             exprs = list(ns.nodeio.parse_smtlib(text))
             tree = refreader.norm_tree(refreader.from_nodes(exprs))
             toks = refreader.flatten(tree)
@@ -177,7 +192,9 @@ def run(ctx):
     ctx.rule = (
         'gen_lex trees (depth<=6, tokens up to 200 chars, hyphens, literals '
         'with blanks/parens/semicolons/newlines/doubled quotes, comments at '
-        'every position, atoms at top level) parsed by ddSMT, each rendered '
+        'every position, atoms at top level; every 4th text cut off at a '
+        'random position or with one character removed, i.e. usually '
+        'ill-formed) parsed by ddSMT, each rendered '
         'by the 4 real renderers; evaluations = tree x renderer; distinct '
         'non-trivial = distinct parsed trees with >= 2 tokens')
     ctx.assumptions = [
